@@ -22,6 +22,11 @@ pub struct Scn {
     pub nested_ei: bool,
     #[serde(default)]
     pub mask_windows: bool,
+    /// the main body contains a STOP; after `halt_len` halted edges the continue key is pressed
+    #[serde(default)]
+    pub mid_stop: bool,
+    #[serde(default)]
+    pub halt_len: u32,
     /// start and width of the window swept with ordered pairs of presses
     pub pair_window: (u32, u32),
     /// restrict the sweep to these trigger edges (set by minimisation); empty = all
@@ -43,6 +48,39 @@ struct Base {
     /// edge of the last sampling instruction end before the final STOP halts the machine
     t_stop_fetch: i64,
     total: i64,
+}
+
+/// a lock-step run plus the driver state of the mid-body STOP (halted edges so far, continued?)
+#[derive(Clone)]
+struct Run {
+    ls: LockStep,
+    idle: u32,
+    continued: bool,
+}
+
+impl Run {
+    fn new(scn: &Scn) -> Run {
+        Run { ls: new_ls(scn), idle: 0, continued: false }
+    }
+    fn live(&self, scn: &Scn) -> bool {
+        self.ls.ended.is_none() || self.at_mid_stop(scn)
+    }
+    fn at_mid_stop(&self, scn: &Scn) -> bool {
+        scn.mid_stop && !self.continued && self.ls.ended == Some(Ended::Halted) && self.ls.sut.state() == State::Stopped
+    }
+    /// one clock edge, or (after `halt_len` halted edges at the mid-body STOP) the continue key
+    fn step(&mut self, scn: &Scn) -> Result<Event, Violation> {
+        if self.at_mid_stop(scn) {
+            if self.idle < scn.halt_len {
+                self.idle += 1;
+                return self.ls.tick();
+            }
+            self.continued = true;
+            self.ls.stim(&Stim::Continue)?;
+            return Ok(Event::None);
+        }
+        self.ls.tick()
+    }
 }
 
 fn new_ls(scn: &Scn) -> LockStep {
@@ -90,27 +128,27 @@ fn press_cov(ls: &LockStep, second: bool, ctx: &mut Ctx) {
 }
 
 /// run a (forked) lock-step to the end; returns Err on a violation
-fn finish(ls: &mut LockStep, limit: i64, ctx: &mut Ctx, presses: &[(u32, Stim)], what: &str) -> Result<(), Violation> {
+fn finish(run: &mut Run, scn: &Scn, limit: i64, ctx: &mut Ctx, presses: &[(u32, Stim)], what: &str) -> Result<(), Violation> {
     let mut idx = 0usize;
-    while ls.ended.is_none() {
-        while idx < presses.len() && presses[idx].0 as i64 <= ls.edge {
-            press_cov(ls, true, ctx);
-            ls.stim(&presses[idx].1).map_err(|mut e| {
+    while run.live(scn) {
+        while idx < presses.len() && presses[idx].0 as i64 <= run.ls.edge {
+            press_cov(&run.ls, true, ctx);
+            run.ls.stim(&presses[idx].1).map_err(|mut e| {
                 e.detail = format!("{}: {}", what, e.detail);
                 e
             })?;
             ctx.cov.fault("K-BOUNCE");
             idx += 1;
         }
-        if ls.edge > limit {
+        if run.ls.edge > limit {
             return Err(v("no-termination", format!("{}: run did not reach STOP within {} edges (uninterrupted run needs fewer)", what, limit)));
         }
-        let e0 = ls.edge;
-        ls.tick().map_err(|mut e| {
+        let e0 = run.ls.edge;
+        run.step(scn).map_err(|mut e| {
             e.detail = format!("{}: {}", what, e.detail);
             e
         })?;
-        ctx.cov.sim_edges += (ls.edge - e0) as u64;
+        ctx.cov.sim_edges += (run.ls.edge - e0) as u64;
     }
     Ok(())
 }
@@ -146,14 +184,15 @@ fn transparent(base: &LockStep, f: &LockStep, what: &str) -> Result<(), Violatio
 }
 
 fn run_base(scn: &Scn, ctx: &mut Ctx) -> Result<Option<Base>, Violation> {
-    let mut ls = new_ls(scn);
+    let mut run = Run::new(scn);
     let mut t_enabled = None;
     let mut t_stop_fetch = 0;
-    while ls.ended.is_none() {
-        if ls.edge > scn.max_edges as i64 {
+    while run.live(scn) {
+        if run.ls.edge > scn.max_edges as i64 {
             return Ok(None);
         }
-        let ev = ls.tick()?;
+        let ev = run.step(scn)?;
+        let ls = &run.ls;
         ctx.cov.sim_edges += 1;
         if ev == Event::Boundary {
             if t_enabled.is_none() && ls.sut.bus().is_key_edge_int_enabled() && ls.sut.registers().interrupt_enable_flag() {
@@ -165,6 +204,10 @@ fn run_base(scn: &Scn, ctx: &mut Ctx) -> Result<Option<Base>, Violation> {
             }
         }
     }
+    if scn.mid_stop && !run.continued {
+        return Ok(None);
+    }
+    let ls = run.ls;
     if ls.ended != Some(Ended::Halted) || ls.sut.state() != State::Stopped {
         return Ok(None); // program family guarantees STOP; anything else is skipped, not judged
     }
@@ -188,16 +231,22 @@ impl C04 {
         let plain = scn.enable_key && !scn.di_windows && !scn.nested_ei && !scn.mask_windows;
         let limit = base.total + 4000; // an ISR with a worst-case DIV costs ~600 edges; two (nested) entries plus slack
         // ---- single press at every edge ----
-        let mut ls = new_ls(scn);
+        let mut run = Run::new(scn);
         let (w0, wl) = scn.pair_window;
-        while ls.ended.is_none() {
-            let t = ls.edge as u32; // the press precedes edge t+1
-            if scn.only.is_empty() || scn.only[0] == t {
-                let mut f = ls.clone();
-                press_cov(&f, false, ctx);
-                f.stim(&Stim::KeyInt)?;
-                let latched = f.presses.last().map(|p| p.1).unwrap_or(false);
+        while run.live(scn) {
+            let t = run.ls.edge as u32; // the press precedes edge t+1
+            // (the step that presses CONTINUE does not advance the edge count: press only once per edge)
+            let fresh_edge = !(run.at_mid_stop(scn) && run.idle >= scn.halt_len);
+            if fresh_edge && (scn.only.is_empty() || scn.only[0] == t) {
+                let ls = &run.ls;
+                let mut f = run.clone();
+                press_cov(&f.ls, false, ctx);
+                f.ls.stim(&Stim::KeyInt)?;
+                let latched = f.ls.presses.last().map(|p| p.1).unwrap_or(false);
                 ctx.cov.fault(if latched { "K-INT" } else { "K-MASKED" });
+                if run.at_mid_stop(scn) {
+                    ctx.cov.probe(if latched { "press-while-halted-at-STOP(enabled)" } else { "press-while-halted-at-STOP(masked)" });
+                }
                 if scn.mask_windows {
                     if !latched && base.t_enabled.map(|te| ls.edge >= te).unwrap_or(false) {
                         ctx.cov.probe("press-inside-mask-window");
@@ -219,33 +268,34 @@ impl C04 {
                 let second: Vec<(u32, Stim)> = if scn.only.len() > 1 { vec![(scn.only[1], Stim::KeyInt)] } else { vec![] };
                 if scn.only.len() <= 1 {
                     let mut g = f.clone();
-                    finish(&mut g, limit, ctx, &[], &what)?;
+                    finish(&mut g, scn, limit, ctx, &[], &what)?;
                     ctx.cov.evaluations += 1;
-                    self.judge(scn, &base, &g, t as i64 + 1, plain, &what)?;
+                    self.judge(scn, &base, &g.ls, t as i64 + 1, plain, &what)?;
                 }
                 // ---- ordered pairs inside the window ----
                 if (t >= w0 && t < w0 + wl) || scn.only.len() > 1 {
                     let mut h = f.clone();
                     let hi = if scn.only.len() > 1 { scn.only[1] + 1 } else { w0 + wl };
-                    while h.ended.is_none() && (h.edge as u32) < hi {
-                        let t2 = h.edge as u32;
-                        if second.is_empty() || second[0].0 == t2 {
+                    while h.live(scn) && (h.ls.edge as u32) < hi {
+                        let t2 = h.ls.edge as u32;
+                        let fresh2 = !(h.at_mid_stop(scn) && h.idle >= scn.halt_len);
+                        if fresh2 && (second.is_empty() || second[0].0 == t2) {
                             let mut g = h.clone();
                             let what2 = format!("presses before edges {} and {}", t + 1, t2 + 1);
-                            finish(&mut g, limit, ctx, &[(t2, Stim::KeyInt)], &what2)?;
+                            finish(&mut g, scn, limit, ctx, &[(t2, Stim::KeyInt)], &what2)?;
                             ctx.cov.evaluations += 1;
-                            self.judge_pair(scn, &base, &g, &what2)?;
+                            self.judge_pair(scn, &base, &g.ls, &what2)?;
                         }
-                        let e0 = h.edge;
-                        h.tick().map_err(|mut e| {
+                        let e0 = h.ls.edge;
+                        h.step(scn).map_err(|mut e| {
                             e.detail = format!("{}: {}", what, e.detail);
                             e
                         })?;
-                        ctx.cov.sim_edges += (h.edge - e0) as u64;
+                        ctx.cov.sim_edges += (h.ls.edge - e0) as u64;
                     }
                 }
             }
-            ls.tick()?;
+            run.step(scn)?;
             ctx.cov.sim_edges += 1;
         }
         Ok(())
@@ -312,9 +362,10 @@ impl Check for C04 {
             isr_work: rng.chance(2, 3),
             enable_by_store: rng.bool(),
             mask_windows: variant == 8 || variant == 9,
+            mid_stop: variant == 7 || variant == 9 || variant == 2,
         };
         let o = HazardOpts { len: 6 + rng.usize(30), wild: false, run_into_io: false, with_ei: true, irq: Some(irq) };
-        let bytes = gen::hazard_program(rng, o);
+        let (bytes, mid_stop) = gen::hazard_program_ex(rng, o);
         let stack = if irq.nested_ei { *rng.pick(&[0u8, 32]) } else { *rng.pick(&[16u8, 16, 0, 32, 64]) };
         let mut regs = [0u8; 8];
         for r in regs.iter_mut() {
@@ -340,6 +391,8 @@ impl Check for C04 {
             di_windows: irq.di_windows,
             nested_ei: irq.nested_ei,
             mask_windows: irq.mask_windows,
+            mid_stop,
+            halt_len: if mid_stop { rng.below(12) as u32 } else { 0 },
             pair_window: (rng.below(400) as u32, w),
             only: vec![],
             max_edges: 3500,
@@ -384,7 +437,7 @@ impl Check for C04 {
         out
     }
     fn rule(&self) -> String {
-        "Per sampled (main program, ISR) pair: an uninterrupted run, then one run per clock edge t in 0..T with the key pressed right before edge t+1 (forked from a checkpoint of the uninterrupted run), then every ordered pair of press edges inside a seeded window of 16-115 edges. Programs: hazard-biased bodies (ALU incl. MUL/DIV, all addressing modes on a private data area, typed PUSH/POP/PUSHF/POPF, CALL/RET, conditional jumps, bounded loops, self-modifying stores, writes to FE/FF) behind `JR MAIN; JR ISR; LDSP; BITS (0xF9),1; EI`; variants: key never enabled, DI windows / IE-clearing flag loads, nested EI in the ISR, mask windows (enable bit cleared by a store to 0xF9 and set again later). evaluations = interrupted runs; distinct = distinct (instruction class in flight, edges since the last boundary, first/second press) placements.".into()
+        "Per sampled (main program, ISR) pair: an uninterrupted run, then one run per clock edge t in 0..T with the key pressed right before edge t+1 (forked from a checkpoint of the uninterrupted run), then every ordered pair of press edges inside a seeded window of 16-115 edges. Programs: hazard-biased bodies (ALU incl. MUL/DIV, all addressing modes on a private data area, typed PUSH/POP/PUSHF/POPF, CALL/RET, conditional jumps, bounded loops, self-modifying stores, writes to FE/FF) behind `JR MAIN; JR ISR; LDSP; BITS (0xF9),1; EI`; variants: key never enabled, DI windows / IE-clearing flag loads, nested EI in the ISR, mask windows (enable bit cleared by a store to 0xF9 and set again later, or rewritten with bit 0 still set), a STOP in the middle of the main body that the driver leaves with the continue key after 0-11 halted edges (presses while halted included in the sweep). evaluations = interrupted runs; distinct = distinct (instruction class in flight, edges since the last boundary, first/second press) placements.".into()
     }
     fn assumptions(&self) -> Vec<String> {
         vec![
@@ -400,11 +453,11 @@ impl Check for C04 {
         json!({
             "image": s.setup.image.bytes.iter().take(0x98).map(|b| format!("{:02X}", b)).collect::<Vec<_>>().join(" "),
             "stack": s.setup.image.stack, "regs": s.setup.regs, "enable_key": s.enable_key, "di_windows": s.di_windows,
-            "nested_ei": s.nested_ei, "mask_windows": s.mask_windows, "pair_window": [s.pair_window.0, s.pair_window.1],
+            "nested_ei": s.nested_ei, "mask_windows": s.mask_windows, "mid_stop": s.mid_stop, "halt_len": s.halt_len, "pair_window": [s.pair_window.0, s.pair_window.1],
         })
     }
     fn must_fire(&self, _tier: Tier) -> Vec<String> {
-        ["K-INT", "K-MASKED", "K-BOUNCE", "press-inside-MUL", "press-inside-DIV", "press-inside-CALL", "press-during-EI", "press-during-RETI", "press-during-entry-sequence", "second-press-while-first-pending", "second-press-inside-ISR", "press-during-memory-wait-of-fetch", "press-during-reset-sequence", "press-inside-mask-window", "press-latched-then-masked-before-the-boundary"]
+        ["K-INT", "K-MASKED", "K-BOUNCE", "press-inside-MUL", "press-inside-DIV", "press-inside-CALL", "press-during-EI", "press-during-RETI", "press-during-entry-sequence", "second-press-while-first-pending", "second-press-inside-ISR", "press-during-memory-wait-of-fetch", "press-during-reset-sequence", "press-inside-mask-window", "press-latched-then-masked-before-the-boundary", "press-while-halted-at-STOP(enabled)"]
             .iter()
             .map(|s| s.to_string())
             .collect()
